@@ -29,6 +29,8 @@ pub enum Step {
   IfOdd(Vec<Step>, Vec<Step>),
 }
 thread_local! {
+  /// set when an end event of a `T(..)` task carries an output that is not the `u32` the task returned (e.g. a box of the box)
+  static WRONG_OUTPUT_OBJECT: RefCell<Option<String>> = RefCell::new(None);
   static PROG: RefCell<Vec<Vec<Step>>> = RefCell::new(vec![]);
   static FAIL_CHECK: Cell<bool> = Cell::new(false);
   static PANIC_IN: Cell<Option<u8>> = Cell::new(None);
@@ -204,17 +206,24 @@ impl Log {
 }
 fn vd(x: Option<&dyn Debug>) -> &'static str { if x.is_some() { "inconsistent" } else { "consistent" } }
 fn vr(x: Result<Option<&dyn Debug>, &dyn Error>) -> &'static str { match x { Ok(None) => "consistent", Ok(Some(_)) => "inconsistent", Err(_) => "error" } }
+/// the output object handed to an end event must BE the task's output (down-castable to its type), not a wrapper that merely prints alike
+fn note_output_object(which: &str, t: &dyn KeyObj, o: &dyn ValueObj) {
+  let name = d(&t);
+  if name.starts_with("T(") && o.as_any().downcast_ref::<u32>().is_none() {
+    WRONG_OUTPUT_OBJECT.with(|w| { if w.borrow().is_none() { *w.borrow_mut() = Some(format!("{} of {} carries an output object that prints {:?} but is not the u32 the task returned", which, name, o)); } });
+  }
+}
 impl Tracker for Log {
   fn build_start(&mut self) { self.st("build", &(), String::new(), String::new()) } fn build_end(&mut self) { self.en("build", &(), String::new(), String::new(), "", String::new()) }
   fn require_start(&mut self, t: &dyn KeyObj, c: &dyn ValueObj) { self.st("require", &t, d(&c), String::new()) }
-  fn require_end(&mut self, t: &dyn KeyObj, c: &dyn ValueObj, s: &dyn ValueObj, o: &dyn ValueObj) { self.en("require", &t, d(&c), d(&s), "", d(&o)) }
+  fn require_end(&mut self, t: &dyn KeyObj, c: &dyn ValueObj, s: &dyn ValueObj, o: &dyn ValueObj) { note_output_object("require_end", t, o); self.en("require", &t, d(&c), d(&s), "", d(&o)) }
   fn read_start(&mut self, r: &dyn KeyObj, c: &dyn ValueObj) { self.st("read", &r, d(&c), String::new()) } fn read_end(&mut self, r: &dyn KeyObj, c: &dyn ValueObj, s: &dyn ValueObj) { self.en("read", &r, d(&c), d(&s), "", String::new()) }
   fn write_start(&mut self, r: &dyn KeyObj, c: &dyn ValueObj) { self.st("write", &r, d(&c), String::new()) } fn write_end(&mut self, r: &dyn KeyObj, c: &dyn ValueObj, s: &dyn ValueObj) { self.en("write", &r, d(&c), d(&s), "", String::new()) }
   fn check_task_start(&mut self, t: &dyn KeyObj, c: &dyn ValueObj, s: &dyn ValueObj) { self.st("check_task", &t, d(&c), d(&s)) }
   fn check_task_end(&mut self, t: &dyn KeyObj, c: &dyn ValueObj, s: &dyn ValueObj, i: Option<&dyn Debug>) { self.en("check_task", &t, d(&c), d(&s), vd(i), String::new()) }
   fn check_resource_start(&mut self, r: &dyn KeyObj, c: &dyn ValueObj, s: &dyn ValueObj) { let x = expected_resource_verdict(&d(&r), &d(&c), &d(&s)); self.pending_expected.push(x); self.st("check_resource", &r, d(&c), d(&s)) }
   fn check_resource_end(&mut self, r: &dyn KeyObj, c: &dyn ValueObj, s: &dyn ValueObj, i: Result<Option<&dyn Debug>, &dyn Error>) { let x = self.pending_expected.pop().unwrap_or(""); self.en("check_resource", &r, d(&c), d(&s), vr(i), String::new()); self.ev.last_mut().unwrap().expected = x; }
-  fn execute_start(&mut self, t: &dyn KeyObj) { self.st("execute", &t, String::new(), String::new()) } fn execute_end(&mut self, t: &dyn KeyObj, o: &dyn ValueObj) { self.en("execute", &t, String::new(), String::new(), "", d(&o)) }
+  fn execute_start(&mut self, t: &dyn KeyObj) { self.st("execute", &t, String::new(), String::new()) } fn execute_end(&mut self, t: &dyn KeyObj, o: &dyn ValueObj) { note_output_object("execute_end", t, o); self.en("execute", &t, String::new(), String::new(), "", d(&o)) }
   fn schedule_affected_by_task_start(&mut self, t: &dyn KeyObj) { self.st("sched_task", &t, String::new(), String::new()) } fn schedule_affected_by_task_end(&mut self, t: &dyn KeyObj) { self.en("sched_task", &t, String::new(), String::new(), "", String::new()) }
   fn check_task_require_task_start(&mut self, t: &dyn KeyObj, c: &dyn ValueObj, s: &dyn ValueObj) { self.st("check_req", &t, d(&c), d(&s)) }
   fn check_task_require_task_end(&mut self, t: &dyn KeyObj, c: &dyn ValueObj, s: &dyn ValueObj, i: Option<&dyn Debug>) { self.en("check_req", &t, d(&c), d(&s), vd(i), String::new()) }
@@ -407,6 +416,7 @@ pub enum Act { Set(u8, u8), Del(u8), TopDown(u8), TopDownFlaky(u8), BottomUp, Bo
 
 /// obligations on the stream of one session that returned: nesting, composite fan-out, executions, stamps
 fn stream_obligations(pie: &P) -> Result<(), Fail> {
+  if let Some(w) = WRONG_OUTPUT_OBJECT.with(|w| w.borrow_mut().take()) { fail!("C17", "C17.bounded.end_events_carry_the_output_itself", "{}", w); }
   let log0 = &pie.tracker().0; let log1 = &pie.tracker().1 .0;
   if log0.ev != log1.ev { fail!("C17", "C17.bounded.composite_children_get_identical_streams", "composite children saw different streams"); }
   if let Err(w) = log0.well_nested() { fail!("C17", "C17.bounded.event_stream_well_nested", "{}", w); }
